@@ -13,98 +13,28 @@ import extract
 import vlib
 from vlib import Broken
 
-# (crate-relative file, function or macro name, kind)   kind: fn | macro
-WHITELIST = [
-    ("lexical-parse-integer/src/algorithm.rs", "is_4digits", "fn"),
-    ("lexical-parse-integer/src/algorithm.rs", "parse_4digits", "fn"),
-    ("lexical-parse-integer/src/algorithm.rs", "is_8digits", "fn"),
-    ("lexical-parse-integer/src/algorithm.rs", "parse_8digits", "fn"),
-    ("lexical-parse-integer/src/algorithm.rs", "can_try_parse_multidigits", "fn"),
-    ("lexical-util/src/num.rs", "overflow_digits", "fn"),
-    ("lexical-util/src/digit.rs", "char_to_valid_digit_const", "fn"),
-    ("lexical-util/src/digit.rs", "char_to_digit_const", "fn"),
-    ("lexical-util/src/digit.rs", "digit_to_char_const", "fn"),
-    ("lexical-parse-float/src/lemire.rs", "compute_float", "fn"),
-    ("lexical-parse-float/src/lemire.rs", "compute_product_approx", "fn"),
-    ("lexical-parse-float/src/lemire.rs", "power", "fn"),
-    ("lexical-parse-float/src/lemire.rs", "full_multiplication", "fn"),
-    ("lexical-parse-float/src/lemire.rs", "compute_error_scaled", "fn"),
-    ("lexical-parse-float/src/lemire.rs", "lemire", "fn"),
-    ("lexical-parse-float/src/bellerophon.rs", "bellerophon", "fn"),
-    ("lexical-parse-float/src/bellerophon.rs", "error_is_accurate", "fn"),
-    ("lexical-parse-float/src/bellerophon.rs", "error_scale", "fn"),
-    ("lexical-parse-float/src/bellerophon.rs", "mul", "fn"),
-    ("lexical-parse-float/src/bellerophon.rs", "normalize", "fn"),
-    ("lexical-parse-float/src/binary.rs", "binary", "fn"),
-    ("lexical-parse-float/src/binary.rs", "slow_binary", "fn"),
-    ("lexical-parse-float/src/shared.rs", "calculate_shift", "fn"),
-    ("lexical-parse-float/src/shared.rs", "calculate_power2", "fn"),
-    ("lexical-parse-float/src/shared.rs", "log2", "fn"),
-    ("lexical-parse-float/src/shared.rs", "round", "fn"),
-    ("lexical-parse-float/src/shared.rs", "round_nearest_tie_even", "fn"),
-    ("lexical-parse-float/src/number.rs", "is_fast_path", "fn"),
-    ("lexical-parse-float/src/number.rs", "try_fast_path", "fn"),
-    ("lexical-parse-float/src/mask.rs", "lower_n_mask", "fn"),
-    ("lexical-parse-float/src/mask.rs", "lower_n_halfway", "fn"),
-    ("lexical-parse-float/src/mask.rs", "nth_bit", "fn"),
-    ("lexical-parse-float/src/slow.rs", "scientific_exponent", "fn"),
-    ("lexical-parse-float/src/slow.rs", "round_up_truncated", "macro"),
-    ("lexical-parse-float/src/slow.rs", "round_up_nonzero", "macro"),
-    ("lexical-parse-float/src/slow.rs", "slow_radix", "fn"),
-    ("lexical-parse-float/src/slow.rs", "digit_comp", "fn"),
-    ("lexical-parse-float/src/slow.rs", "positive_digit_comp", "fn"),
-    ("lexical-parse-float/src/slow.rs", "negative_digit_comp", "fn"),
-    ("lexical-parse-float/src/slow.rs", "parse_mantissa", "fn"),
-    ("lexical-parse-float/src/slow.rs", "byte_comp", "fn"),
-    ("lexical-parse-float/src/slow.rs", "compare_bytes", "fn"),
-    ("lexical-parse-float/src/slow.rs", "b", "fn"),
-    ("lexical-parse-float/src/slow.rs", "bh", "fn"),
-    ("lexical-write-float/src/algorithm.rs", "compute_nearest_shorter", "fn"),
-    ("lexical-write-float/src/algorithm.rs", "compute_nearest_normal", "fn"),
-    ("lexical-write-float/src/algorithm.rs", "floor_log2", "fn"),
-    ("lexical-write-float/src/algorithm.rs", "floor_log10_pow2", "fn"),
-    ("lexical-write-float/src/algorithm.rs", "floor_log2_pow10", "fn"),
-    ("lexical-write-float/src/algorithm.rs", "floor_log5_pow2", "fn"),
-    ("lexical-write-float/src/algorithm.rs", "floor_log5_pow2_minus_log5_3", "fn"),
-    ("lexical-write-float/src/algorithm.rs", "floor_log10_pow2_minus_log10_4_over_3", "fn"),
-    ("lexical-write-float/src/algorithm.rs", "umul128_upper64", "fn"),
-    ("lexical-write-float/src/algorithm.rs", "umul192_upper128", "fn"),
-    ("lexical-write-float/src/algorithm.rs", "umul192_lower128", "fn"),
-    ("lexical-write-float/src/algorithm.rs", "umul96_upper64", "fn"),
-    ("lexical-write-float/src/algorithm.rs", "umul96_lower64", "fn"),
-    ("lexical-write-float/src/algorithm.rs", "is_endpoint", "fn"),
-    ("lexical-write-float/src/algorithm.rs", "is_right_endpoint", "fn"),
-    ("lexical-write-float/src/algorithm.rs", "is_left_endpoint", "fn"),
-    ("lexical-write-float/src/shared.rs", "truncate_and_round_decimal", "fn"),
-    ("lexical-write-float/src/shared.rs", "round_up", "fn"),
-    ("lexical-write-float/src/shared.rs", "min_exact_digits", "fn"),
-    ("lexical-write-float/src/shared.rs", "write_exponent_sign", "fn"),
-    ("lexical-write-float/src/binary.rs", "calculate_shl", "fn"),
-    ("lexical-write-float/src/binary.rs", "scale_sci_exp", "fn"),
-    ("lexical-write-float/src/binary.rs", "fast_ceildiv", "fn"),
-    ("lexical-write-float/src/binary.rs", "inverse_remainder", "fn"),
-    ("lexical-write-float/src/binary.rs", "truncate_and_round", "fn"),
-    ("lexical-write-float/src/compact.rs", "round_digit", "fn"),
-    ("lexical-write-float/src/compact.rs", "generate_digits", "fn"),
-    ("lexical-write-float/src/compact.rs", "grisu", "fn"),
-    ("lexical-write-float/src/compact.rs", "normalized_boundaries", "fn"),
-    ("lexical-write-integer/src/digit_count.rs", "fast_log2", "fn"),
-    ("lexical-write-integer/src/decimal.rs", "fast_log10", "fn"),
-    ("lexical-write-integer/src/decimal.rs", "fallback_digit_count", "fn"),
-    ("lexical-write-integer/src/jeaiii.rs", "write_digits", "macro"),
-    ("lexical-write-integer/src/jeaiii.rs", "from_u8", "fn"),
-    ("lexical-write-integer/src/jeaiii.rs", "from_u16", "fn"),
-    ("lexical-write-integer/src/jeaiii.rs", "from_u32", "fn"),
-    ("lexical-write-integer/src/jeaiii.rs", "from_u64", "fn"),
-    ("lexical-write-integer/src/jeaiii.rs", "from_u128", "fn"),
-    ("lexical-write-integer/src/algorithm.rs", "write_digits", "fn"),
-    ("lexical-write-integer/src/compact.rs", "compact", "fn"),
-    ("lexical-util/src/div128.rs", "fast_u128_divrem", "fn"),
-    ("lexical-util/src/div128.rs", "moderate_u128_divrem", "fn"),
-    ("lexical-util/src/div128.rs", "slow_u128_divrem", "fn"),
-    ("lexical-util/src/div128.rs", "pow2_u128_divrem", "fn"),
-    ("lexical-util/src/mul.rs", "mulhi", "fn"),
-    ("lexical-write-float/src/options.rs", "buffer_size_const", "fn"),
+# Whole files are covered: every `fn` and `macro_rules!` item found in these files is an entry (cfg variants and
+# per-type impls of the same name are concatenated in source order).
+FILES = [
+    "lexical-parse-integer/src/algorithm.rs", "lexical-parse-integer/src/api.rs", "lexical-parse-integer/src/parse.rs",
+    "lexical-parse-float/src/parse.rs", "lexical-parse-float/src/number.rs", "lexical-parse-float/src/lemire.rs",
+    "lexical-parse-float/src/bellerophon.rs", "lexical-parse-float/src/binary.rs", "lexical-parse-float/src/shared.rs",
+    "lexical-parse-float/src/mask.rs", "lexical-parse-float/src/slow.rs", "lexical-parse-float/src/bigint.rs",
+    "lexical-parse-float/src/float.rs", "lexical-parse-float/src/limits.rs", "lexical-parse-float/src/api.rs",
+    "lexical-parse-float/src/options.rs",
+    "lexical-write-float/src/algorithm.rs", "lexical-write-float/src/compact.rs", "lexical-write-float/src/binary.rs",
+    "lexical-write-float/src/hex.rs", "lexical-write-float/src/radix.rs", "lexical-write-float/src/shared.rs",
+    "lexical-write-float/src/write.rs", "lexical-write-float/src/options.rs", "lexical-write-float/src/api.rs",
+    "lexical-write-float/src/float.rs",
+    "lexical-write-integer/src/algorithm.rs", "lexical-write-integer/src/compact.rs", "lexical-write-integer/src/decimal.rs",
+    "lexical-write-integer/src/digit_count.rs", "lexical-write-integer/src/jeaiii.rs", "lexical-write-integer/src/radix.rs",
+    "lexical-write-integer/src/write.rs", "lexical-write-integer/src/api.rs",
+    "lexical-util/src/digit.rs", "lexical-util/src/div128.rs", "lexical-util/src/mul.rs", "lexical-util/src/step.rs",
+    "lexical-util/src/num.rs", "lexical-util/src/skip.rs", "lexical-util/src/noskip.rs", "lexical-util/src/iterator.rs",
+    "lexical-util/src/format_flags.rs", "lexical-util/src/feature_format.rs", "lexical-util/src/not_feature_format.rs",
+    "lexical-util/src/format_builder.rs", "lexical-util/src/ascii.rs", "lexical-util/src/algorithm.rs", "lexical-util/src/constants.rs",
+    "lexical-util/src/options.rs", "lexical-util/src/extended_float.rs",
+    "lexical-core/src/lib.rs", "lexical/src/lib.rs",
 ]
 
 TOKEN = re.compile(r"""
@@ -188,93 +118,113 @@ def find_item(tokens, name, kind):
     return bodies
 
 
-def extract_all():
-    cache = {}
-    rows = []
-    for (rel, name, kind) in WHITELIST:
-        path = os.path.join(vlib.REPO, rel)
-        if path not in cache:
-            try:
-                cache[path] = tokenize(open(path).read())
-            except OSError as e:
-                raise Broken("S-read[%s]" % rel, repr(e))
-        bodies = find_item(cache[path], name, kind)
-        if not bodies:
-            raise Broken("S-find[%s::%s]" % (rel, name), "whitelisted %s `%s` not found in %s" % (kind, name, rel))
-        lits = []
-        shape = []
-        for b in bodies:
-            for (k, t) in b:
-                if k == "number":
-                    v = number_value(t)
-                    if v is not None:
-                        lits.append(v)
-                        shape.append("#")
-                        continue
-                if k in ("string",):
-                    shape.append("S")          # message strings do not matter
-                    continue
-                shape.append(t)
-            shape.append("|")
-        h = int(hashlib.sha1(" ".join(shape).encode()).hexdigest()[:12], 16)
-        rows.append((rel, name, lits, h))
-    return rows
+def items_of(tokens):
+    """distinct (name, kind) of all fn / macro_rules! items, in order of first appearance"""
+    out = []
+    seen = set()
+    for i, (k, t) in enumerate(tokens[:-1]):
+        nk, nt = tokens[i + 1]
+        if t == "fn" and nk == "ident":
+            key = (nt, "fn")
+        elif t == "macro_rules!" and nk == "ident":
+            key = (nt, "macro")
+        else:
+            continue
+        if key not in seen:
+            seen.add(key)
+            out.append(key)
+    return out
 
 
-def lean_name(rel, name):
-    crate = rel.split("/")[0].replace("lexical-", "").replace("-", "_")
+def file_module(rel):
+    crate = rel.split("/")[0].replace("lexical-", "").replace("-", "_").replace("lexical", "facade")
     mod = os.path.basename(rel)[:-3]
-    return "%s_%s_%s" % (crate, mod, name)
+    return "".join(w.capitalize() for w in (crate + "_" + mod).split("_"))
 
 
-def render(rows, namespace, header):
+def extract_all():
+    """{module: [(item name, kind, literals, shape hash)]}"""
+    res = {}
+    for rel in FILES:
+        path = os.path.join(vlib.REPO, rel)
+        try:
+            toks = tokenize(open(path).read())
+        except OSError as e:
+            raise Broken("S-read[%s]" % rel, repr(e))
+        rows = []
+        for (name, kind) in items_of(toks):
+            bodies = find_item(toks, name, kind)
+            lits, shape = [], []
+            for b in bodies:
+                for (k, t) in b:
+                    if k == "number":
+                        v = number_value(t)
+                        if v is not None:
+                            lits.append(v)
+                            shape.append("#")
+                            continue
+                    if k == "string":
+                        shape.append("S")
+                        continue
+                    shape.append(t)
+                shape.append("|")
+            h = int(hashlib.sha1(" ".join(shape).encode()).hexdigest()[:12], 16)
+            rows.append((name + ("_macro" if kind == "macro" else ""), lits, h))
+        res[file_module(rel)] = (rel, rows)
+    return res
+
+
+def ident(name):
+    return "k_" + re.sub(r"[^A-Za-z0-9_]", "_", name)
+
+
+def render(res, namespace, header):
     s = [header, "namespace %s" % namespace, ""]
-    for rel, name, lits, h in rows:
-        s.append("/-- `%s` in %s: integer literals in source order, and a hash of the token shape (literals abstracted) -/" % (name, rel))
-        s.append("def %s : List Nat × Nat := ([%s], %d)" % (lean_name(rel, name), ", ".join(map(str, lits)), h))
-    s.append("")
-    s.append("def all : List (String × (List Nat × Nat)) := [")
-    s.append(",\n".join('  ("%s", %s)' % (lean_name(rel, name), lean_name(rel, name)) for rel, name, _, _ in rows))
-    s += ["]", "", "end %s" % namespace, ""]
+    for mod, (rel, rows) in res.items():
+        s.append("namespace %s  -- %s" % (mod, rel))
+        for name, lits, h in rows:
+            s.append("def %s : List Nat × Nat := ([%s], %d)" % (ident(name), ", ".join(map(str, lits)), h))
+        s.append("def items : List String := [%s]" % ", ".join('"%s"' % n for n, _, _ in rows))
+        s.append("end %s" % mod)
+        s.append("")
+    s += ["end %s" % namespace, ""]
     return "\n".join(s)
 
 
 def generate():
-    rows = extract_all()
+    res = extract_all()
     extract.write_if_changed(os.path.join(extract.GEN_DIR, "Literals.lean"),
-                             render(rows, "LexVerif.Gen.Literals",
-                                    "/-! GENERATED by extractors/literals.py from /repo's source text on every run — do not edit. -/"))
-    return rows
+                             render(res, "LexVerif.Gen.Literals",
+                                    "/-! GENERATED by extractors/literals.py from /repo's source text on every run — do not edit.\n"
+                                    "Per source file: every fn / macro_rules! item with its integer literals in source order and a hash of its\n"
+                                    "token sequence (literals abstracted, comments and string contents ignored). -/"))
+    return res
 
 
 def snapshot():
-    """(re)create the committed snapshot the models were transcribed from — run by hand, reviewed, committed"""
-    rows = extract_all()
-    p = os.path.join(vlib.LEAN, "LexVerif", "Spec", "LiteralsExpected.lean")
-    open(p, "w").write(render(rows, "LexVerif.Spec.LiteralsExpected",
-                              "/-! Snapshot of the literals and token shapes of the whitelisted kernels at the time the hand-written models\n"
-                              "were transcribed (created by `python3 -c 'import extractors.literals as l; l.snapshot()'`, then committed).\n"
-                              "`Props/Literals.lean` proves `Gen.Literals` (regenerated from /repo on every run) equal to it. -/"))
-    fams = {}
-    for rel, name, _, _ in rows:
-        n = lean_name(rel, name)
-        fam = "".join(w.capitalize() for w in n.split("_")[:2])      # ParseInteger, ParseFloat, WriteFloat, WriteInteger, UtilX
-        if fam.startswith("Util"):
-            fam = "Util"
-        fams.setdefault(fam, []).append(n)
-    os.makedirs(os.path.join(vlib.LEAN, "LexVerif", "Props", "Literals"), exist_ok=True)
-    for fam, names in fams.items():
+    """(re)create the committed snapshot the models were transcribed from, and the theorem files — run by hand after
+    reviewing a source change (e.g. a `fix:` commit), then commit the result"""
+    import shutil
+    res = extract_all()
+    open(os.path.join(vlib.LEAN, "LexVerif", "Spec", "LiteralsExpected.lean"), "w").write(
+        render(res, "LexVerif.Spec.LiteralsExpected",
+               "/-! Snapshot of the literals and token shapes of the covered source files at the time the hand-written models were\n"
+               "transcribed / last reviewed (created by `extractors.literals.snapshot()`, then committed).\n"
+               "`Props/Literals/*.lean` prove `Gen.Literals` (regenerated from /repo on every run) equal to it, item by item. -/"))
+    d = os.path.join(vlib.LEAN, "LexVerif", "Props", "Literals")
+    shutil.rmtree(d, ignore_errors=True)
+    os.makedirs(d)
+    for mod, (rel, rows) in res.items():
         t = ["import LexVerif.Gen.Literals", "import LexVerif.Spec.LiteralsExpected", "/-!",
-             "# Literals.%s — whitelisted arithmetic kernels of /repo still carry the literals (and token shape) the models" % fam,
-             "were transcribed from",
+             "# Literals.%s — %s still has the literals and token shape the models were transcribed from" % (mod, rel),
              "",
-             "`Gen.Literals` is re-extracted from /repo's source text on every run (extractors/literals.py: a tokenizer, the",
-             "integer literals of each whitelisted function/macro in source order, and a hash of its token sequence with the",
-             "literals abstracted). `Spec.LiteralsExpected` is the committed snapshot. One theorem per kernel, so that a failing",
-             "obligation names the function whose source moved. (Written by `snapshot()` together with the snapshot.)",
-             "-/", "namespace LexVerif.Props.Literals.%s" % fam, "open LexVerif", ""]
-        for n in names:
-            t.append("theorem %s : Gen.Literals.%s = Spec.LiteralsExpected.%s := by decide" % (n, n, n))
-        t += ["", "end LexVerif.Props.Literals.%s" % fam, ""]
-        open(os.path.join(vlib.LEAN, "LexVerif", "Props", "Literals", fam + ".lean"), "w").write("\n".join(t))
-    return rows
+             "`Gen.Literals.%s` is re-extracted from /repo's source text on every run; `Spec.LiteralsExpected.%s` is the" % (mod, mod),
+             "committed snapshot. One theorem per fn / macro item, so a failing obligation names the item whose source moved;",
+             "`items_same` catches added or removed items. (Written by `extractors.literals.snapshot()`.)",
+             "-/", "namespace LexVerif.Props.Literals.%s" % mod, "open LexVerif", ""]
+        t.append("theorem items_same : Gen.Literals.%s.items = Spec.LiteralsExpected.%s.items := by decide" % (mod, mod))
+        for name, _, _ in rows:
+            t.append("theorem %s : Gen.Literals.%s.%s = Spec.LiteralsExpected.%s.%s := by decide" % (ident(name), mod, ident(name), mod, ident(name)))
+        t += ["", "end LexVerif.Props.Literals.%s" % mod, ""]
+        open(os.path.join(d, mod + ".lean"), "w").write("\n".join(t))
+    return res
